@@ -42,6 +42,10 @@ class Budget(BaseException):
     pass
 
 
+class DepthLimit(PathAbort):
+    """enumerate_prefixes: the path reached the sharding depth."""
+
+
 _CUR = None  # the engine exploring right now (one per process)
 
 
@@ -95,6 +99,9 @@ class Engine(object):
         self._fresh = {}
         self._notes = []
         self.lock = threading.RLock()
+        self.depth_limit = None   # enumerate_prefixes: stop at this depth
+        self.frontier = []        # prefixes cut at depth_limit
+        self._root = 0            # decisions below this index are fixed
 
     # ------------------------------------------------------------------
     # variables
@@ -144,12 +151,16 @@ class Engine(object):
         return SymTime(v)
 
     def choice(self, name, options):
-        """A concrete element of ``options`` chosen by the solver (forks)."""
+        """A concrete element of ``options`` chosen by the solver (forks:
+        one branch per option, no solver query while replaying)."""
         options = list(options)
         if len(options) == 1:
             return options[0]
         i = self.int(name, 0, len(options) - 1)
-        return options[concretize_int(i)]
+        for k in range(len(options) - 1):
+            if self.branch(i.t == k):
+                return options[k]
+        return options[-1]
 
     def assume(self, cond):
         t = _to_bool_term(cond)
@@ -207,6 +218,10 @@ class Engine(object):
                 self._pos += 1
                 self._solver.add(term if choice else z3.Not(term))
                 return choice
+            if self.depth_limit is not None and \
+                    self._pos >= self.depth_limit:
+                self.frontier.append([c for c, _ in self._prefix])
+                raise DepthLimit()
             rt = self._check(term)
             rf = self._check(z3.Not(term))
             if rt == 'unknown' or rf == 'unknown':
@@ -283,12 +298,17 @@ class Engine(object):
     # ------------------------------------------------------------------
     # exploration
     # ------------------------------------------------------------------
-    def explore(self, fn, sample_every=None):
-        """Run ``fn()`` once per feasible path until the tree is exhausted."""
+    def explore(self, fn, sample_every=None, root_prefix=None):
+        """Run ``fn()`` once per feasible path until the tree is exhausted.
+        ``root_prefix``: a list of decisions that is replayed and never
+        flipped - the exploration stays in that subtree (sharding)."""
         global _CUR
         if _CUR is not None:
             raise HarnessError("nested symx engines")
         _CUR = self
+        if root_prefix is not None:
+            self._prefix = [[bool(c), False] for c in root_prefix]
+            self._root = len(self._prefix)
         try:
             while True:
                 self._solver = z3.Solver()
@@ -310,6 +330,8 @@ class Engine(object):
                     raise HarnessError(
                         'non-deterministic harness: replay consumed %d of %d '
                         'decisions' % (self._pos, len(self._prefix)))
+                if self._root and len(self._prefix) < self._root:
+                    raise HarnessError('path shorter than its shard prefix')
                 if not aborted:
                     self.paths += 1
                     if len(self.samples) < 6 and (
@@ -323,9 +345,10 @@ class Engine(object):
                                  'model': self._model(),
                                  'notes': self._notes[:12]})
                 # backtrack
-                while self._prefix and not self._prefix[-1][1]:
+                while len(self._prefix) > self._root and \
+                        not self._prefix[-1][1]:
                     self._prefix.pop()
-                if not self._prefix:
+                if len(self._prefix) <= self._root:
                     self.exhausted = True
                     return self
                 last = self._prefix[-1]
@@ -378,6 +401,12 @@ def _it(x):
 
 class SymBool(object):
     __slots__ = ('t',)
+
+    def __deepcopy__(self, memo):
+        return self
+
+    def __copy__(self):
+        return self
 
     def __init__(self, t):
         self.t = t
@@ -505,6 +534,12 @@ def _minimise(e, t, v):
 class SymInt(object):
     __slots__ = ('t', 'lo', 'hi')
 
+    def __deepcopy__(self, memo):
+        return self
+
+    def __copy__(self):
+        return self
+
     def __init__(self, t, lo=None, hi=None):
         self.t = t
         self.lo = lo
@@ -621,6 +656,12 @@ class SymEnum(object):
     compared lazily: ``x == 'RUNNING'`` is a SymBool."""
     __slots__ = ('t', 'universe')
 
+    def __deepcopy__(self, memo):
+        return self
+
+    def __copy__(self):
+        return self
+
     def __init__(self, t, universe):
         self.t = t
         self.universe = universe
@@ -669,6 +710,12 @@ class SymBV(object):
     """Fixed-width unsigned integer (addresses).  Supports what
     ``ipaddress`` does with ``_ip``: ``&``, ``==``, comparisons, ``>>``."""
     __slots__ = ('t', 'w')
+
+    def __deepcopy__(self, memo):
+        return self
+
+    def __copy__(self):
+        return self
 
     def __init__(self, t, w):
         self.t = t
@@ -753,6 +800,12 @@ class SymDelta(object):
     """A symbolic ``timedelta`` in whole seconds."""
     __slots__ = ('t',)
 
+    def __deepcopy__(self, memo):
+        return self
+
+    def __copy__(self):
+        return self
+
     def __init__(self, t):
         self.t = t
 
@@ -816,6 +869,12 @@ def _tt(o):
 class SymTime(object):
     """A symbolic clock reading: integer seconds since 2000-01-01."""
     __slots__ = ('t',)
+
+    def __deepcopy__(self, memo):
+        return self
+
+    def __copy__(self):
+        return self
 
     def __init__(self, t):
         self.t = t
@@ -1011,3 +1070,10 @@ class ConcreteEngine(object):
         finally:
             _CUR = None
         return self
+
+
+def seconds(x):
+    """timedelta of x seconds; symbolic if x is."""
+    if isinstance(x, SymInt):
+        return SymDelta(x.t)
+    return datetime.timedelta(seconds=x)
